@@ -178,18 +178,35 @@ def _has_subtype_dupname_link(fx, sp, m):
     return False
 
 
+@common.job
 def _job(job):
     kind, items = job
-    sp = families.ops_lang()
-    fx = langs.fixture(sp)
     stats, viols = {}, []
     if kind == 'hist':
-        system = engine_hist._system(c07.make_system, ('OPS',))
-        for hist in items:
+        lname, hists = items
+        sp = c07.lang_spec(lname)
+        system = engine_hist._system(c07.make_system, (lname,))
+        for hist in hists:
             c = engine_hist.replay(system, hist)
-            viols += check_model(system.fx, sp, c.model, {'source': 'history', 'history': [list(h) for h in hist]}, stats)
+            viols += check_model(system.fx, sp, c.model, {'source': 'history', 'language': lname, 'history': [list(h) for h in hist]}, stats)
+            stats['models'] = stats.get('models', 0) + 1
+    elif kind == 'extra':
+        from .. import modelgen
+        for k, (lname, pm) in enumerate(c07.extra_plain_models()):
+            sp = c07.lang_spec(lname)
+            fx = langs.fixture(sp)
+            m, objs = modelgen.build(fx, pm)
+            from maltoolbox.model import AttackerAttachment
+            at = AttackerAttachment()
+            m.add_attacker(at)
+            first = pm.assets[0][0]
+            for st in list(inherit.resolve(sp, pm.types[first]))[:2]:
+                at.add_entry_point(objs[first], st)
+            viols += check_model(fx, sp, m, {'source': 'extra', 'index': k, 'language': lname, 'model': pm.describe()}, stats)
             stats['models'] = stats.get('models', 0) + 1
     else:
+        sp = families.ops_lang()
+        fx = langs.fixture(sp)
         for dsc in items:
             m = c07.build_decorated(fx, dict(dsc, extras=False))
             viols += check_model(fx, sp, m, {'source': 'decorated', 'model': dsc}, stats)
@@ -197,18 +214,10 @@ def _job(job):
     return stats, viols[:40]
 
 
-def run(tier, seed):
-    res = common.Result(PROP, tier, seed, 'model_checking')
-    res.rule = ('every distinct model content reached by the bounded history search (ids with gaps / zero / negative / explicit, '
-                'multi-member associations, duplicate-named association classes incl. links between subtypes, several attackers '
-                'with several entry points per asset) plus the decorated model family is emitted in the 0.0.39 layout (json, yaml, '
-                'inline association fields) and as .sCAD (both orientations of every association element) and loaded through the '
-                'legacy loaders; normal form (assets with defenses, pairwise links, entry points) must equal the native load')
-    depth, K = (4, 1) if tier == 'quick' else (5, 2)
-    scratch = common.Result(PROP, tier, seed, 'model_checking')
-    reps = engine_hist.explore(c07.make_system, ('OPS',), depth, K, scratch, seed, label=f'[OPS,D{depth},K{K}]')
-    system = engine_hist._system(c07.make_system, ('OPS',))
-    sp = families.ops_lang()
+def distinct_histories(lname, depth, K, scratch, seed):
+    reps = engine_hist.explore(c07.make_system, (lname,), depth, K, scratch, seed, label=f'[{lname},D{depth},K{K}]')
+    system = engine_hist._system(c07.make_system, (lname,))
+    sp = c07.lang_spec(lname)
     by_content = {}
     for k in sorted(reps):
         hist = reps[k][0]
@@ -220,8 +229,24 @@ def run(tier, seed):
         key = json.dumps(c07.content(c.model, sp), sort_keys=True, default=repr)
         if key not in by_content or len(hist) < len(by_content[key]):
             by_content[key] = hist
-    hists = common.rotate([by_content[k] for k in sorted(by_content)], seed)
-    jobs = [('hist', hists[i:i + 16]) for i in range(0, len(hists), 16)]
+    return common.rotate([by_content[k] for k in sorted(by_content)], seed)
+
+
+def run(tier, seed):
+    res = common.Result(PROP, tier, seed, 'model_checking')
+    res.rule = ('every distinct model content reached by the bounded history search (ids with gaps / zero / negative / explicit, '
+                'multi-member associations, duplicate-named association classes incl. links between subtypes, several attackers '
+                'with several entry points per asset) plus the decorated model family is emitted in the 0.0.39 layout (json, yaml, '
+                'inline association fields) and as .sCAD (both orientations of every association element) and loaded through the '
+                'legacy loaders; normal form (assets with defenses, pairwise links, entry points) must equal the native load')
+    depth, K = (4, 1) if tier == 'quick' else (5, 2)
+    scratch = common.Result(PROP, tier, seed, 'model_checking')
+    hists = distinct_histories('OPS', depth, K, scratch, seed)
+    jobs = [('hist', ('OPS', hists[i:i + 16])) for i in range(0, len(hists), 16)]
+    h2 = distinct_histories('OPS2', depth - 1, 0, scratch, seed)
+    jobs += [('hist', ('OPS2', h2[i:i + 16])) for i in range(0, len(h2), 16)]
+    jobs.append(('extra', None))
+    hists = hists + h2
     dm = [d for d in c07.decorated_models() if not d['extras']]
     jobs += [('deco', dm[i:i + 4]) for i in range(0, len(dm), 4)]
     for stats, viols in common.pmap(_job, jobs):
@@ -244,10 +269,14 @@ def replay(path):
     c = j['case']
     sp = families.ops_lang()
     if c['source'] == 'history':
-        system = c07.make_system(('OPS',))
+        lname = c.get('language', 'OPS')
+        sp = c07.lang_spec(lname)
+        system = c07.make_system((lname,))
         hist = tuple(tuple(c07._t(x) for x in op) for op in c['history'])
         ctx = engine_hist.replay(system, hist)
         vs = check_model(system.fx, sp, ctx.model, c, {})
+    elif c['source'] == 'extra':
+        stats, vs = _job(('extra', None))
     else:
         fx = langs.fixture(sp)
         d = dict(c['model'])
